@@ -33,6 +33,13 @@ pub fn current_worker_ordinal() -> ThreadId {
     ordinal
 }
 
+/// Verification accessor (unit harness): make the calling thread look like GC worker `ordinal`, so
+/// that code paths using per-worker queues (block pools) can be driven from a plain thread.
+#[cfg(feature = "mmtk_verif")]
+pub fn verif_set_worker_ordinal(ordinal: ThreadId) {
+    WORKER_ORDINAL.with(|x| x.store(ordinal, Ordering::Relaxed));
+}
+
 /// The struct has one instance per worker, but is shared between workers via the scheduler
 /// instance.  This structure is used for communication between workers, e.g. adding designated
 /// work packets, stealing work packets from other workers, and collecting per-worker statistics.
